@@ -53,12 +53,43 @@ def run_seed(verif_seed, pid, tier, index):
 # ---------------------------------------------------------------------------
 # one run, guarded
 
+class RunTimeout(BaseException):
+    """One run exceeded its wall-clock allowance (an endless loop in the code
+    under test or in the harness): no verdict for it."""
+
+
+RUN_WALL_S = 180
+
+
 def guarded_execute(mod, plan):
-    """Execute; anything escaping execute() itself is a harness error."""
+    """Execute; anything escaping execute() itself is a harness error.  A
+    run that does not come back within RUN_WALL_S seconds (a step cap cannot
+    bound a loop that makes no seam call) is ended and reported as a harness
+    error with the stack it was in."""
+    import signal
+    import threading
+    armed = False
+    if hasattr(signal, "SIGALRM") and \
+            threading.current_thread() is threading.main_thread():
+        def _late(_sig, frame):
+            raise RunTimeout("".join(traceback.format_stack(frame)[-12:]))
+        try:
+            old = signal.signal(signal.SIGALRM, _late)
+            signal.alarm(RUN_WALL_S)
+            armed = True
+        except ValueError:
+            armed = False
     try:
         res = mod.execute(plan)
+    except RunTimeout as e:
+        return {"harness_error": "run did not come back within %d s; it was "
+                                 "in:\n%s" % (RUN_WALL_S, e)}
     except Exception:
         return {"harness_error": traceback.format_exc()}
+    finally:
+        if armed:
+            signal.alarm(0)
+            signal.signal(signal.SIGALRM, old)
     res.setdefault("violations", [])
     res.setdefault("digests", [])
     res.setdefault("fired", {})
